@@ -24,7 +24,7 @@ func (cmBaseOracle) nontrivial(*chainMachine) bool                { return true 
 var cmDefaultProfile = cmProfile{weights: map[string]int{
 	"deployCreate": 3, "marketRound": 4, "advance": 5, "provider": 2, "audit": 2,
 	"leaseClose": 2, "bidClose": 2, "deployClose": 2, "leaseWithdraw": 2, "groupStart": 2, "groupPause": 1, "groupClose": 1,
-	"cert": 1, "wrongSigner": 1, "withdrawThenClose": 1,
+	"cert": 1, "wrongSigner": 1, "withdrawThenClose": 1, "exhaustExactly": 2,
 }}
 
 // cmRun runs the chain machine for one property.
